@@ -335,12 +335,8 @@ func c05Verdicts(c *Ctx, b []byte, modelOps bool) {
 		// the reference recogniser itself is wrong: make it loud
 		c.Oracle("selfcheck/ref-vs-std", fmt.Sprintf("%q", b), fmt.Sprintf("ref=%v", ref), fmt.Sprintf("std=%v", std), false, "")
 	}
-	class := func() string {
-		if refValid(b, relax{ctlInString: true}) {
-			return "C05-ctl-in-string"
-		}
-		return ""
-	}
+	// D02 (raw control bytes inside strings) was repaired: no class explains an accepted invalid text
+	class := func() string { return "" }
 	in := fmt.Sprintf("%q", b)
 	// Unmarshal into interface{}
 	var v interface{}
@@ -394,40 +390,49 @@ func c05Verdicts(c *Ctx, b []byte, modelOps bool) {
 
 func c05Typed(c *Ctx, b []byte) {
 	in := fmt.Sprintf("%q", b)
-	skipClass := func() string {
-		// explained by the lenient skip language (D07) or by control bytes in strings (D02)?
-		if refValid(b, relax{ctlInString: true}) {
-			return "C05-ctl-in-string"
-		}
-		return "C05-skip-unvalidated"
+	// D07 (skipped parts only bracket-counted) and D02 (control bytes in strings) were repaired: no
+	// class explains an accepted invalid text any more
+	// the stream uses NUL as its end-of-window sentinel: a NUL byte in the input ends it (open finding)
+	nulClass := ""
+	if bytes.IndexByte(b, 0) >= 0 {
+		nulClass = "C05-stream-nul"
+	} else if t := bytes.TrimLeft(b, " \t\r\n"); len(t) > 0 && (t[0] == ',' || t[0] == ':') {
+		// Decoder.Decode skips one leading ',' or ':' (PrepareForDecode) whatever the token state (open finding)
+		nulClass = "C05-stream-leading-separator"
+	}
+	type tc struct {
+		name string
+		g, s func() interface{}
+	}
+	for _, t := range []tc{
+		{"struct-unknown", func() interface{} { return new(c05Struct) }, func() interface{} { return new(c05Struct) }},
+		{"short-array", func() interface{} { return new([1]int) }, func() interface{} { return new([1]int) }},
+		{"unmarshaler-member", func() interface{} { return new(c05WithUnm) }, func() interface{} { return new(c05StdWithUnm) }},
+		{"empty-struct", func() interface{} { return new(struct{}) }, func() interface{} { return new(struct{}) }},
+		{"empty-array", func() interface{} { return new([0]int) }, func() interface{} { return new([0]int) }},
+	} {
+		gerr, serr := json.Unmarshal(b, t.g()), stdjson.Unmarshal(b, t.s())
+		c.Oracle("typed/"+t.name, in, fmt.Sprintf("err=%v", gerr), fmt.Sprintf("err=%v", serr), (gerr == nil) == (serr == nil), "")
+		gerr, serr = json.NewDecoder(bytes.NewReader(b)).Decode(t.g()), stdjson.NewDecoder(bytes.NewReader(b)).Decode(t.s())
+		c.Oracle("typed/"+t.name+"/stream", in, fmt.Sprintf("err=%v", gerr), fmt.Sprintf("err=%v", serr), (gerr == nil) == (serr == nil), nulClass)
+		gerr = json.NewDecoder(&chunkReader{data: b, size: 1}).Decode(t.g())
+		c.Oracle("typed/"+t.name+"/stream1", in, fmt.Sprintf("err=%v", gerr), fmt.Sprintf("err=%v", serr), (gerr == nil) == (serr == nil), nulClass)
 	}
 	{
-		var g, s c05Struct
-		gerr, serr := json.Unmarshal(b, &g), stdjson.Unmarshal(b, &s)
-		cl := ""
-		if gerr == nil && serr != nil && !stdjson.Valid(b) {
-			cl = skipClass()
-		}
-		c.Oracle("typed/struct-unknown", in, fmt.Sprintf("err=%v", gerr), fmt.Sprintf("err=%v", serr), (gerr == nil) == (serr == nil), cl)
-	}
-	{
-		var g, s [1]int
-		gerr, serr := json.Unmarshal(b, &g), stdjson.Unmarshal(b, &s)
-		cl := ""
-		if gerr == nil && serr != nil && !stdjson.Valid(b) {
-			cl = skipClass()
-		}
-		c.Oracle("typed/short-array", in, fmt.Sprintf("err=%v", gerr), fmt.Sprintf("err=%v", serr), (gerr == nil) == (serr == nil), cl)
-	}
-	{
-		var g c05WithUnm
-		var s c05StdWithUnm
-		gerr, serr := json.Unmarshal(b, &g), stdjson.Unmarshal(b, &s)
-		cl := ""
-		if gerr == nil && serr != nil && !stdjson.Valid(b) {
-			cl = skipClass()
-		}
-		c.Oracle("typed/unmarshaler-member", in, fmt.Sprintf("err=%v", gerr), fmt.Sprintf("err=%v", serr), (gerr == nil) == (serr == nil), cl)
+		// first-win: once every field has been seen the rest of the object is passed over
+		var g c05Struct
+		var sv stdjson.RawMessage
+		gerr, valid := json.UnmarshalWithOption(b, &g, json.DecodeFieldPriorityFirstWin()), stdjson.Valid(b)
+		var s c05Struct
+		serr := stdjson.Unmarshal(b, &s)
+		// a repeated member is passed over, so a type error of encoding/json (last wins) is no guide: success
+		// needs a valid text, and a text encoding/json decodes must succeed
+		c.Oracle("typed/first-win", in, fmt.Sprintf("err=%v", gerr), fmt.Sprintf("valid=%v err=%v", valid, serr), (gerr != nil || valid) && (serr != nil || gerr == nil), "")
+		d := json.NewDecoder(&chunkReader{data: b, size: 1})
+		gerr = d.DecodeWithOption(&g, json.DecodeFieldPriorityFirstWin())
+		valid = stdjson.NewDecoder(bytes.NewReader(b)).Decode(&sv) == nil
+		serr = stdjson.NewDecoder(bytes.NewReader(b)).Decode(&s)
+		c.Oracle("typed/first-win/stream1", in, fmt.Sprintf("err=%v", gerr), fmt.Sprintf("valid=%v err=%v", valid, serr), (gerr != nil || valid) && (serr != nil || gerr == nil), nulClass)
 	}
 }
 
@@ -458,9 +463,7 @@ func c05Strings(c *Ctx, lit []byte) {
 		gerr, serr := json.Unmarshal([]byte(t.doc), t.g()), stdjson.Unmarshal([]byte(t.doc), t.s())
 		cl := ""
 		if gerr == nil && serr != nil && !stdjson.Valid([]byte(t.doc)) {
-			if refValid([]byte(t.doc), relax{ctlInString: true}) {
-				cl = "C05-ctl-in-string"
-			}
+			cl = "" // D02 repaired: nothing explains an accepted invalid literal
 		}
 		c.Oracle("strings/"+t.name+"/buf", t.doc, fmt.Sprintf("err=%v", gerr), fmt.Sprintf("err=%v", serr), (gerr == nil) == (serr == nil), cl)
 		gerr, serr = json.NewDecoder(strings.NewReader(t.doc)).Decode(t.g()), stdjson.NewDecoder(strings.NewReader(t.doc)).Decode(t.s())
@@ -485,6 +488,8 @@ func runC05(c *Ctx) {
 			c05Typed(c, append(append([]byte(`{"x":`), prefix...), '}'))
 			c05Typed(c, append(append([]byte(`[1,`), prefix...), ']'))
 			c05Typed(c, append(append([]byte(`{"u":`), prefix...), '}'))
+			c05Typed(c, append(append([]byte(`{"a":1,"a":`), prefix...), '}'))
+			c05Typed(c, append(append([]byte(`{"a":1`), prefix...), '}'))
 		}
 		n++
 		if len(prefix) == maxLen {
